@@ -120,3 +120,12 @@ Definition export_phase_doc (key : string) : qphase := match qt_assoc key export
 Definition export_phase (key : string) : poly := ph_poly (export_phase_doc key).
 
 Definition qt_scale (ph : poly) (M : gt_mat) : gt_mat := map (map (fun x => ph *p x)) M.
+
+(* The generated obligation for a table pair: M_pennylane = ph * qelib matrix for the documented phase of the pair or, failing
+   that, for one of the other global phases that occur between the rotation and the phase-gate conventions
+   (so that e.g. re-mapping RZ to u1 would still be recognised as the same unitary up to a global phase). *)
+Definition phase_candidates (key : string) : list qphase :=
+  [export_phase_doc key; PhOne; PhExp 0 (-1)%Z 2%Z; PhExp 0 1%Z 2%Z].
+Definition export_equiv (hz : Z) (eqb : Z -> gt_mat -> gt_mat -> bool) (key : string) (M N : gt_mat) : bool :=
+  existsb (fun ph => eqb hz M (qt_scale (ph_poly ph) N)) (phase_candidates key).
+
